@@ -22,6 +22,13 @@
 #include <kernel/solver/scale_precond.hpp>
 #include <kernel/solver/diagonal_precond.hpp>
 #include <kernel/solver/matrix_precond.hpp>
+#ifdef C08_WITH_SCHWARZ
+#include <kernel/lafem/vector_mirror.hpp>
+#include <kernel/global/gate.hpp>
+#include <kernel/global/vector.hpp>
+#include <kernel/global/filter.hpp>
+#include <kernel/solver/schwarz_precond.hpp>
+#endif
 
 namespace vf
 {
@@ -469,6 +476,36 @@ namespace vf
 
     inline std::string omega_class(double w) { if(w == 1.0) return "omega:1"; return w < 1.0 ? "omega:<1" : "omega:>1"; }
 
+#ifdef C08_WITH_SCHWARZ
+    /// single-rank Schwarz: Global::Vector / Global::Filter over a gate without neighbours; the operator is the local
+    /// solver followed by the (global) correction filter.  Exposed as a SolverBase of the local vector type.
+    template<typename DT, typename IT, typename F> struct SchwarzAdapter : public Solver::SolverBase<DenseVector<DT, IT>>
+    {
+      typedef DenseVector<DT, IT> V; typedef VectorMirror<DT, IT> Mir; typedef Global::Gate<V, Mir> Gate;
+      typedef Global::Vector<V, Mir> GV; typedef Global::Filter<F, Mir> GF;
+      Dist::Comm comm; Gate gate; GF gfilter; GV gin, gout; std::shared_ptr<Solver::SchwarzPrecond<GV, GF>> sw;
+      SchwarzAdapter(std::shared_ptr<Solver::SolverBase<V>> local, const F& filt, Index n, bool ignore_status) :
+        comm(Dist::Comm::world()), gate(comm), gfilter(filt.clone()), gin(&gate, n), gout(&gate, n)
+      { sw = std::make_shared<Solver::SchwarzPrecond<GV, GF>>(local, gfilter, ignore_status); }
+      virtual String name() const override { return "SchwarzAdapter"; }
+      virtual void init_symbolic() override { sw->init_symbolic(); }
+      virtual void init_numeric() override { sw->init_numeric(); }
+      virtual void done_numeric() override { sw->done_numeric(); }
+      virtual void done_symbolic() override { sw->done_symbolic(); }
+      virtual Solver::Status apply(V& cor, const V& def) override
+      {
+        gin.local().copy(def); for(Index i = 0; i < cor.size(); ++i) gout.local().elements()[i] = std::numeric_limits<DT>::quiet_NaN();
+        Solver::Status st = sw->apply(gout, gin);
+        VF_CHECK(std::string((const char*)gin.local().elements(), def.size() * sizeof(DT)) == std::string((const char*)def.elements(), def.size() * sizeof(DT)), "schwarz: apply modified its (global) input vector");
+        cor.copy(gout.local()); return st;
+      }
+    };
+    template<typename DT, typename IT, int B, typename F> struct SchwarzWrap
+    { static std::shared_ptr<Solver::SolverBase<typename Types<DT, IT, B>::V>> wrap(std::shared_ptr<Solver::SolverBase<typename Types<DT, IT, B>::V>> s, const F&, int, bool) { return s; } };
+    template<typename DT, typename IT, typename F> struct SchwarzWrap<DT, IT, 1, F>
+    { static std::shared_ptr<Solver::SolverBase<DenseVector<DT, IT>>> wrap(std::shared_ptr<Solver::SolverBase<DenseVector<DT, IT>>> s, const F& f, int n, bool ign) { return std::make_shared<SchwarzAdapter<DT, IT, F>>(s, f, Index(n), ign); } };
+#endif
+
     // ------------------------------------------------------------------------------------------------------------
     // the property body
     // ------------------------------------------------------------------------------------------------------------
@@ -477,7 +514,7 @@ namespace vf
     template<typename DT, typename IT, int B> struct Runner
     {
       typedef Types<DT, IT, B> T; typedef typename T::M M; typedef typename T::V V;
-      Tape& t; Ctx& c; Case cs;
+      Tape& t; Ctx& c; Case cs; bool schwarz = false; bool schwarz_ignore = false;
       Runner(Tape& tt, Ctx& cc) : t(tt), c(cc) {}
 
       static LD tiny() { return 16.0L * (LD)std::numeric_limits<DT>::min(); }
@@ -658,6 +695,9 @@ namespace vf
       {
         V diag(Index(cs.n)); if(cs.kind == K_DIAG) for(int i = 0; i < cs.N; ++i) T::vp(diag)[i] = DT(cs.dver[0][(size_t)i]); else for(int i = 0; i < cs.N; ++i) T::vp(diag)[i] = DT(1);
         auto solver = make(A, filt, diag);
+#ifdef C08_WITH_SCHWARZ
+        if(schwarz) solver = SchwarzWrap<DT, IT, B, F>::wrap(solver, filt, cs.n, schwarz_ignore);
+#endif
         V vin(Index(cs.n)), vout(Index(cs.n));
         auto apply_one = [&](const char* what, int step, int vec, int version, bool check) -> std::vector<LD>
         {
@@ -763,7 +803,7 @@ namespace vf
         const int n = cs.n;
         // description
         c.op = kind_name[cs.kind];
-        J d = c.desc; d.set("kind", kind_name[cs.kind]); d.set("dt", TypeName<DT>::n()); d.set("it", TypeName<IT>::n()); d.set("block", B); d.set("n", n);
+        J d = c.desc; d.set("kind", kind_name[cs.kind]); if(schwarz) d.set("wrapped", "schwarz(single rank)"); d.set("dt", TypeName<DT>::n()); d.set("it", TypeName<IT>::n()); d.set("block", B); d.set("n", n);
         d.set("pattern", cs.patcls); d.set("values", cs.valcls_name); if(B > 1) d.set("blocks", cs.blkcls); d.set("dd", cs.dd);
         if(cs.kind != K_ILU && cs.kind != K_DIAG && cs.kind != K_MATRIX) d.set("omega", cs.omega);
         if(cs.kind == K_ILU) d.set("p", cs.p); if(cs.kind == K_POLY) d.set("m", cs.m);
@@ -796,6 +836,7 @@ namespace vf
         const bool needs_offdiag = (cs.kind == K_SOR || cs.kind == K_SSOR || cs.kind == K_ILU || cs.kind == K_POLY || cs.kind == K_MATRIX);
         c.nontrivial = n_inf > 0 && cs.N >= 2 && (!needs_offdiag || offdiag);
         // labels
+        if(schwarz) c.label(std::string("schwarz:local-") + kind_name[cs.kind]);
         c.label(std::string("kind:") + kind_name[cs.kind]); c.label(std::string("dt:") + TypeName<DT>::n()); c.label(std::string("it:") + TypeName<IT>::n());
         c.label("block:" + std::to_string(B)); c.label("pat:" + cs.patcls); c.label("val:" + cs.valcls_name); if(B > 1) c.label("blk:" + cs.blkcls);
         c.label(cs.dd ? "matrix:diag-dominant" : "matrix:general"); c.label(cs.unit ? "filter:unit" : "filter:none");
